@@ -117,12 +117,12 @@ def run_engine(binary, workdir, scs, name="eng", timeout=900):
     return out
 
 
-def split_trace(path):
-    """-> list of (scenario_record, [event lines as raw strings])"""
+def split_trace(path, marker='"ev":"scenario"'):
+    """-> list of groups; each group = raw ndjson lines, the first one being the header line"""
     groups = []
     with open(path) as f:
         for line in f:
-            if line.startswith('{"ev":"scenario"') or '"ev":"scenario"' in line[:40]:
+            if marker in line[:60]:
                 groups.append([line])
             else:
                 groups[-1].append(line)
@@ -142,16 +142,16 @@ def _last_state_no(out):
     return max(nums) if nums else None
 
 
-def tlc_trace(workdir, module, trace_file, consts, invariants, properties, tag, timeout=900, extra_specs=()):
+def tlc_trace(workdir, module, trace_file, consts, invariants, properties, tag, timeout=900, spec="TraceSpec"):
     cfg = "%s.cfg" % tag
     c = dict(consts)
     c["TraceFile"] = '"%s"' % os.path.basename(trace_file)
-    vlib.write_cfg(os.path.join(workdir, cfg), constants=c, spec="TraceSpec", invariants=invariants,
+    vlib.write_cfg(os.path.join(workdir, cfg), constants=c, spec=spec, invariants=invariants,
                    properties=properties, postcondition="Accepted")
     return vlib.run_tlc(workdir, module, cfg, workers=1, timeout=timeout)
 
 
-def validate_groups(workdir, groups, module, consts, invariants, properties, tag, max_failures=25, timeout=900):
+def validate_groups(workdir, groups, module, consts, invariants, properties, tag, max_failures=25, timeout=900, spec="TraceSpec"):
     """Validate scenario groups (lists of raw ndjson lines) with a trace spec.
     Returns (stats, failures) where failures = [dict(group_index, kind, name, line_in_group, tlc)]
     Each failing group is isolated and re-validated alone so the report is about one scenario."""
@@ -163,7 +163,7 @@ def validate_groups(workdir, groups, module, consts, invariants, properties, tag
         with open(path, "w") as f:
             for g in groups[start:]:
                 f.writelines(g)
-        r = tlc_trace(workdir, module, path, consts, invariants, properties, tag, timeout=timeout)
+        r = tlc_trace(workdir, module, path, consts, invariants, properties, tag, timeout=timeout, spec=spec)
         stats["runs"] += 1
         stats["states"] += r.distinct
         stats["generated"] += r.generated
@@ -186,7 +186,7 @@ def validate_groups(workdir, groups, module, consts, invariants, properties, tag
         alone = os.path.join(workdir, "%s.alone.ndjson" % tag)
         with open(alone, "w") as f:
             f.writelines(groups[gi])
-        r1 = tlc_trace(workdir, module, alone, consts, invariants, properties, tag + "a", timeout=timeout)
+        r1 = tlc_trace(workdir, module, alone, consts, invariants, properties, tag + "a", timeout=timeout, spec=spec)
         stats["runs"] += 1
         if r1.ok:
             raise vlib.Infra("group %d fails in context but passes alone (%s %s)" % (gi, r.kind, r.violated))
